@@ -378,7 +378,7 @@ def main(argv=None):
     merged = Stats()
     errors = []
     hard_limit = budget * 1.5 + 600  # shrinking may run past the budget
-    case_limit = getattr(mod, "CASE_LIMIT_S", 300)
+    case_limit = float(os.environ.get("VERIF_CASE_LIMIT_S") or getattr(mod, "CASE_LIMIT_S", 300))  # env override: harness self-test only
     hung = {}
     pending = set(range(len(procs)))
     while pending:
@@ -406,8 +406,7 @@ def main(argv=None):
     for i, (p, out, log) in enumerate(procs):
         log.close()
         if i in hung:
-            merged.violations.append({"sig": "hang|case-exceeded-time-limit", "detail": {"limit_s": case_limit, "note": "shard process killed by the engine while this case was running"},
-                                      "case": hung[i]["case"]})
+            _judge_hung_case(mod, prop, hung[i]["case"], case_limit, merged)
             out = out + ".partial"  # statistics gathered before the hang
             if not os.path.exists(out):
                 continue
@@ -456,6 +455,10 @@ def main(argv=None):
     for sig, n in sorted(merged.known.items()):
         print(f"KNOWN-FINDING: property={prop} {known.what(prop, sig)} [signature {sig}; {n} generated cases hit it]")
 
+    for note in merged.notes:
+        if note.startswith(("inconclusive", "slow under load")):
+            print("NOTE " + note)
+
     # violations: one replay file per signature
     seen = {}
     for v in merged.violations:
@@ -474,6 +477,47 @@ def main(argv=None):
     print(f"{prop} {args.tier} seed={seed}: {status}; evaluations={merged.evaluations} distinct_nontrivial={len(merged.keys)} "
           f"known_hits={sum(merged.known.values())} truncated={merged.truncated} wall={wall:.0f}s")
     return rc
+
+
+def _judge_hung_case(mod, prop, case, case_limit, merged):
+    """A shard was killed while `case` ran. The machine may simply have been busy (16 shards, other jobs), so the case
+    is run once more, alone, in a child process under the same limit. Still over the limit: a violation where
+    termination is part of the property (module sets HANG_IS_VIOLATION, i.e. C11), otherwise an inconclusive note -
+    a time budget never decides a property that does not speak about time. Finished alone: it is judged normally."""
+    import tempfile
+
+    fd, tmp = tempfile.mkstemp(prefix="vf-hung-", suffix=".json", dir=runner_scratch())
+    with os.fdopen(fd, "w") as fh:
+        json.dump({"property": prop, "signature": "hang", "detail": {}, "case": case}, fh, default=str)
+    t1 = time.time()
+    try:
+        r = subprocess.run([sys.executable, "-m", "vf.engine", prop, "--replay", tmp], env=dict(os.environ, VF_REPLAY_INNER="1"),
+                           capture_output=True, text=True, timeout=case_limit)
+        took = time.time() - t1
+        sigs = [ln.strip()[len("signature: "):] for ln in r.stdout.splitlines() if ln.strip().startswith("signature: ")]
+        if r.returncode == 1 and sigs and "VIOLATION" in r.stdout:
+            for sig in sigs:
+                merged.violations.append({"sig": sig, "detail": {"note": f"found when the case was re-run alone ({took:.0f}s) after its shard was stopped at the case limit"}, "case": case})
+        elif r.returncode not in (0, 1):
+            merged.notes.append(f"inconclusive: case stopped at the {case_limit}s limit; re-run alone ended with exit {r.returncode}: {json.dumps(case, default=str)[:300]}")
+        else:
+            merged.notes.append(f"slow under load: a case ran into the {case_limit}s limit in its shard and took {took:.0f}s alone: {json.dumps(case, default=str)[:300]}")
+    except subprocess.TimeoutExpired:
+        if getattr(mod, "HANG_IS_VIOLATION", False):
+            merged.violations.append({"sig": "hang|case-exceeded-time-limit", "detail": {"limit_s": case_limit, "note": "exceeded the limit in its shard and again when run alone"}, "case": case})
+        else:
+            merged.notes.append(f"inconclusive: a case exceeded the {case_limit}s limit twice (termination is property C11's subject): {json.dumps(case, default=str)[:300]}")
+            merged.truncated = True
+    finally:
+        try:
+            os.unlink(tmp)
+        except OSError:
+            pass
+
+
+def runner_scratch():
+    d = "/dev/shm" if os.path.isdir("/dev/shm") and os.access("/dev/shm", os.W_OK) else None
+    return d
 
 
 def _write_replay(prop, v) -> str:
